@@ -47,8 +47,16 @@ def roots(path):
     return out
 
 
+# functions of the otherwise pure dependency crates that read or write process-global state (seed C17/4B): typst-syntax numbers file ids from a
+# global interner (`static INTERNER: LazyLock<RwLock<..>>`, 16-bit ids, entries leaked) - every `FileId::new` / `new_fake` leaves state behind that
+# later calls observe (and `new_fake` panics once the process has created 65 535 ids); `Source::detached` uses one fixed id and is not listed
+GLOBAL_STATE_PATHS = re.compile(r'\bFileId::(new|new_fake)\b|\btypst_syntax::(file::)?(FileId::(new|new_fake)|INTERNER)\b')
+
+
 def classify_ambient(path, extra_pure_crates=()):
     """returns ('pure'|'ambient'|'unknown', reason)"""
+    if GLOBAL_STATE_PATHS.search(path):
+        return 'ambient', 'process-global file-id interner of typst-syntax'
     rs = roots(path)
     if not rs:
         # e.g. `<T as Trait>::m` with everything generic, or `<&str as ...>`
